@@ -534,9 +534,7 @@ class dir_archive(archive):
         return
     def _lsdir(self):
         "get a list of subdirectories in the root directory"
-        dirs = walk(self.__state__['id'],patterns=PREFIX+'*',recurse=False,folders=True,files=False,links=False)
-        # skip any 'temporary' directories (i.e. entries still being written)
-        return [d for d in dirs if not os.path.basename(d).startswith(PREFIX+TEMP)]
+        return walk(self.__state__['id'],patterns=PREFIX+'*',recurse=False,folders=True,files=False,links=False)
     def _hasinput(self, root):
         "check if results subdirectory has stored input file"
         return bool(walk(root,patterns=self._args,recurse=False,folders=False,files=True,links=False))
@@ -604,12 +602,15 @@ class dir_archive(archive):
     def _store(self, key, value, input=False):
         "store output (and possibly input) in a subdirectory"
         _key = TEMP+hash(random(), 'md5')
+        # the temporary directory is not named with PREFIX, so is never a key
+        _dir = os.path.join(self.__state__['id'], _key)
         # create an input file when key is not suitable directory name
         if self._fname(key) != key: input=True #XXX: errors if protocol=0,1?
         # create a temporary directory, and dump the results
         try:
-            _file = os.path.join(self._mkdir(_key), self._file)
-            if input: _args = os.path.join(self._getdir(_key), self._args)
+            mkdir(_key, root=self.__state__['id'], mode=self.__state__['permissions'])
+            _file = os.path.join(_dir, self._file)
+            if input: _args = os.path.join(_dir, self._args)
             if self.__state__['serialized']:
                 protocol = self.__state__['protocol']
                 if self.__state__['fast']:
@@ -647,12 +648,12 @@ class dir_archive(archive):
         except OSError:
             "failed to populate directory for '%s'" % str(key)
         except: # e.g. value can't be serialized: remove temporary directory
-            self._rmdir(_key)
+            rmtree(_dir, self=True, ignore_errors=True)
             raise
         # move the results to the proper place
         try: #XXX: possible permissions issues here
             self._rmdir(key) #XXX: 'key' must be a suitable dir name
-            os.renames(self._getdir(_key), self._getdir(key))
+            os.renames(_dir, self._getdir(key))
 #       except TypeError: #XXX: catch key that isn't converted to safe filename
 #           "error in populating directory for '%s'" % str(key)
         except OSError: #XXX: if rename fails, may need cleanup (_rmdir ?)
